@@ -577,7 +577,7 @@ fn c16_eq_w5() {
     check_eq(&any_name::<5>(), &any_name::<5>());
 }
 
-// @harness props=C16 tier=thorough mem=11 t=3400 fn="<Name as PartialEq>::eq,<Label as PartialEq>::eq,Name::labels"
+// @harness props=C16 tier=thorough mem=9 t=3400 fn="<Name as PartialEq>::eq,<Label as PartialEq>::eq,Name::labels"
 //   bound="every ordered pair of valid names of wire length <= 7 (all shapes, every octet value), stack view; unwind 9"
 //   sym="a,b: buf:[u8;7], len<=7"
 #[kani::proof]
@@ -618,7 +618,7 @@ fn c16_cmp_w5() {
     check_cmp(&any_name::<5>(), &any_name::<5>());
 }
 
-// @harness props=C16 tier=thorough mem=10 t=3400 fn="<Name as Ord>::cmp,<Label as Ord>::cmp,<Name as PartialEq>::eq,Name::labels,Labels::next_back"
+// @harness props=C16 tier=thorough mem=8 t=3400 fn="<Name as Ord>::cmp,<Label as Ord>::cmp,<Name as PartialEq>::eq,Name::labels,Labels::next_back"
 //   bound="every ordered pair of valid names of wire length <= 7 (all shapes, every octet value), stack view; unwind 9"
 //   sym="a,b: buf:[u8;7], len<=7"
 #[kani::proof]
@@ -646,7 +646,7 @@ fn c16_cmp_antisymmetric_w5() {
     check_cmp_antisym(&any_name::<5>(), &any_name::<5>(), true);
 }
 
-// @harness props=C16 tier=thorough mem=7 t=3400 fn="<Name as Ord>::cmp,<Label as Ord>::cmp"
+// @harness props=C16 tier=thorough mem=8 t=3400 fn="<Name as Ord>::cmp,<Label as Ord>::cmp"
 //   bound="every ordered pair of valid names of wire length <= 7 (all shapes, every octet value), stack view; antisymmetry only (partial_cmp is in the w5 harness); unwind 9"
 //   sym="a,b: buf:[u8;7], len<=7"
 #[kani::proof]
@@ -678,7 +678,7 @@ fn c16_hash_2x2() {
     pair_2x2(check_hash);
 }
 
-// @harness props=C16 tier=thorough mem=7 t=3400 fn="<Name as Hash>::hash,<Label as Hash>::hash"
+// @harness props=C16 tier=thorough mem=4 t=3400 fn="<Name as Hash>::hash,<Label as Hash>::hash"
 //   bound="every ordered pair of valid names of wire length <= 7 (all shapes, every octet value); recording Hasher; unwind 9"
 //   sym="a,b: buf:[u8;7], len<=7"
 #[kani::proof]
@@ -726,7 +726,7 @@ fn c16_eq_or_subdomain_of_2x2() {
     pair_2x2(check_sub);
 }
 
-// @harness props=C16 tier=thorough mem=7 t=3400 fn="Name::eq_or_subdomain_of,<Label as PartialEq>::eq,Name::labels,Labels::next_back"
+// @harness props=C16 tier=thorough mem=4 t=3400 fn="Name::eq_or_subdomain_of,<Label as PartialEq>::eq,Name::labels,Labels::next_back"
 //   bound="every ordered pair of valid names of wire length <= 7 (all shapes, every octet value), stack view; unwind 9"
 //   sym="a,b: buf:[u8;7], len<=7"
 #[kani::proof]
@@ -758,7 +758,7 @@ fn check_ref_order(a: &Stack, b: &Stack, c: &Stack) {
     kani::cover!(ab == Ordering::Equal && !same(a.wire(), b.wire()) && a.wl == 7, "Equal for different spellings");
 }
 
-// @harness props=C16 tier=thorough mem=6 t=3000 fn="(oracle only) ref_name_cmp,ref_label_cmp,same_nocase"
+// @harness props=C16 tier=thorough mem=4 t=3000 fn="(oracle only) ref_name_cmp,ref_label_cmp,same_nocase"
 //   bound="every triple of valid names of wire length <= 7 (all shapes, every octet value); reference code only; unwind 9"
 //   sym="a,b,c: buf:[u8;7], len<=7"
 #[kani::proof]
@@ -810,7 +810,7 @@ fn c16_cmp_transitive_w5() {
     check_cmp_transitive(&any_name::<5>(), &any_name::<5>(), &any_name::<5>());
 }
 
-// @harness props=C16 tier=thorough mem=7 t=3400 fn="<Name as PartialEq>::eq,<Label as PartialEq>::eq"
+// @harness props=C16 tier=thorough mem=9 t=3400 fn="<Name as PartialEq>::eq,<Label as PartialEq>::eq"
 //   bound="every triple of valid names of wire length <= 7 (all shapes incl. 2 labels x 2 octets, every octet value), stack view; unwind 9"
 //   sym="a,b,c: buf:[u8;7], len<=7"
 #[kani::proof]
@@ -819,7 +819,7 @@ fn c16_eq_transitive_w7() {
     check_eq_transitive(&any_name::<7>(), &any_name::<7>(), &any_name::<7>());
 }
 
-// @harness props=C16 tier=thorough mem=7 t=3400 fn="<Name as Ord>::cmp,<Label as Ord>::cmp"
+// @harness props=C16 tier=thorough mem=12 t=3400 fn="<Name as Ord>::cmp,<Label as Ord>::cmp"
 //   bound="every triple of valid names of wire length <= 7 (all shapes incl. 2 labels x 2 octets, every octet value), stack view; unwind 9"
 //   sym="a,b,c: buf:[u8;7], len<=7"
 #[kani::proof]
